@@ -567,4 +567,26 @@ std::string RunFault(const JVal& scn, const std::string& doc, const std::string&
 }
 #endif
 
+
+//-----------------------------------------------------------------------------
+// Round trip (C01): save the scripted value (memory + stream with the scenario's options), then load the produced
+// bytes back with the same script (values ignored when loading) from memory (when UTF-8 without BOM) and from a stream.
+//-----------------------------------------------------------------------------
+template <class TArchive>
+std::string RunRoundTrip(const JVal& scn)
+{
+	const std::string saved = RunSave<TArchive>(scn);
+	rapidjson::Document sv;
+	sv.Parse(saved.c_str());
+	const std::string mem = BytesFromJson(sv["mem"]);
+	const std::string stream = BytesFromJson(sv["stream"]);
+	std::string out = saved.substr(0, saved.size() - 1);
+	const bool memOk = std::string(sv["excmem"][0].GetString()) == "none";
+	const bool streamOk = std::string(sv["excstream"][0].GetString()) == "none";
+	out += ",\"loadmem\":" + (memOk ? RunLoad<TArchive>(scn, mem, "mem") : std::string("null"));
+	out += ",\"loadstream\":" + (streamOk ? RunLoad<TArchive>(scn, stream, "sstream") : std::string("null"));
+	out += ",\"loadshort\":" + (streamOk ? RunLoad<TArchive>(scn, stream, "short3") : std::string("null"));
+	return out + "}";
+}
+
 }  // namespace vh
